@@ -533,6 +533,11 @@ func (t *WeightedMerkleTrie) commit(node Node, batcher storage.Batcher, collapse
 			return nil, err
 		}
 		if level == collapseLevel {
+			// a collapsed branch has been written like any other node: account for it too
+			createdChan <- n.Hash()
+			if !bytes.Equal(prevHash, n.Hash()) {
+				deleteChan <- prevHash
+			}
 			n.Children = [16]Node{}
 			return &hashNode{
 				hash:   n.Hash(),
